@@ -271,4 +271,23 @@ theorem shouldTrade_time_of_day (n s s' : Nat) (hs : s < 86400) (hs' : s' < 8640
   rw [h1] at *; rw [h2] at *
   cases ha : shouldTrade (86400 * n + s) <;> cases hb : shouldTrade (86400 * n + s') <;> simp_all
 
+/-- the schedule evaluated from the date of the day (what the streaming driver runs) -/
+def shouldTradeFrom (x : Date) : Bool :=
+  if x.d < 28 - 7 then false
+  else if weekend x then false
+  else
+    let chk (i : Nat) : Bool := let o := adv i x; if weekend o then false else o.m == x.m
+    if chk 1 then false else if chk 2 then false else if chk 3 then false else true
+
+/-- the streaming form is the model of `should_trade`, at every time of the day -/
+theorem shouldTradeFrom_eq (n s : Nat) (hs : s < 86400) :
+    shouldTradeFrom (dateOf n) = shouldTrade (86400 * n + s) := by
+  have h0 : (86400 * n + s) / 86400 = n := by omega
+  have hdiv : ∀ i, (86400 * n + s + i * 86400) / 86400 = n + i := by
+    intro i; rw [Nat.add_mul_div_right _ _ (by decide : 0 < 86400), h0]
+  simp only [shouldTradeFrom, shouldTrade, h0, hdiv, dateOf_add]
+
+/-- the default schedule -/
+def defaultSchedule (_ : Nat) : Bool := true
+
 end PC
